@@ -96,7 +96,7 @@ class Gen:
         r = self.r
         sub = None if r.random() < 0.6 else ['T', 'T', [['[', ['Str', 'n']]]]
         types = r.choice([[], [], ['int'], ['int', 'str'], ['dict']])
-        vals = r.choice([[], [], [1, 5], [None, 'a'], [7]])
+        vals = r.choice([[], [], [1, 5], [None, 'a'], [7], [0, 3], ['', 0]])
         validators = r.choice([[], [], [['even']], [['gt', 4]], [['even'], ['gt', 4]], [['raise', 'ValueError']],
                                [['const', 0]], [['id']], [['is_none'], ['const', 0]], [['inc']]])     # falsy results that are not False pass
         inst = r.choice([[], [], ['int'], ['object'], ['str', 'dict']])
@@ -132,6 +132,12 @@ def corpus():
         {'target': 'a', 'spec': ['MExpr', ['M'], '>', ['Lit', 5]]},
         {'target': 4, 'spec': ['Check', None, ['int'], [], [['even']], [], None]},
         {'target': 5, 'spec': ['Check', None, [], [], [['even']], [], ['Lit', 'dflt']]},
+        # one_of ALONE (no type, instance_of or validate): membership is the whole condition, falsy members included
+        {'target': 0, 'spec': ['Check', None, [], [0, 1, 3], [], [], None]},
+        {'target': '', 'spec': ['Check', None, [], ['', 'a'], [], [], None]},
+        {'target': None, 'spec': ['Check', None, [], [None, 1], [], [], ['Lit', 'dflt']]},
+        {'target': {'k': 'dict', 'od': False, 'id': 6, 'items': [['n', 0], ['m', '']]}, 'spec': ['Check', ['T', 'T', [['[', ['Str', 'n']]]], [], [0, 5], [], [], None]},
+        {'target': 0, 'spec': ['Check', None, [], [0], [], [], None]},
     ]
 
 
